@@ -93,6 +93,7 @@ type IV struct {
 	f      Form
 	m      int
 	lo, hi *big.Int // range of the ideal form on the piece
+	z      bool     // the machine value is below 2^m (an unsigned value of m bits that was zero-extended)
 }
 
 func (v IV) exact() bool {
@@ -213,6 +214,10 @@ func (ev *intEval) eval(t *Term) (IV, error) {
 		r := ev.mk(k, a.f, k.Bits)
 		if !a.exact() {
 			r.m = minI(a.m, k.Bits)
+			// zero-extension of a wrapped unsigned value: still congruent modulo 2^m, and now known to be below 2^m
+			if !a.k.Signed && !k.Signed && k.Bits > a.k.Bits && (a.m == a.k.Bits || a.z) {
+				r.z = true
+			}
 		}
 		return r, nil
 	case OpAdd, OpSub:
@@ -311,16 +316,18 @@ func (ev *intEval) eval(t *Term) (IV, error) {
 		if !a.exact() {
 			// the wrap-around trick: full-width congruence and a power-of-two divisor
 			kk, p2 := isPow2(c)
-			if !(a.m == k.Bits && p2 && mode == mFloor) {
+			if !((a.m == k.Bits || a.z) && p2 && mode == mFloor && kk <= a.m) {
 				return IV{}, e4fail("division of a value that may have wrapped (range [%s,%s] in %d-bit %s): %s", a.lo, a.hi, k.Bits, signName(k), pretty(t))
 			}
-			nm = k.Bits - kk
+			nm = a.m - kk
 		}
 		f, err := divForm(a.f, c, mode)
 		if err != nil {
 			return IV{}, e4fail("%v in %s", err, pretty(t))
 		}
-		return ev.mk(k, f, nm), nil
+		r := ev.mk(k, f, nm)
+		r.z = a.z && !a.exact()
+		return r, nil
 	case OpOr:
 		// (v << s) | c with 0 <= c < 2^s sets bits that are zero in v << s: it is v<<s + c, without carries
 		a, err := ev.eval(t.Args[0])
@@ -640,8 +647,14 @@ func (c *Checker) extractKernel(fn *ssa.Function, srcDepth, dstDepth int64) (*ke
 				return nil, e4fail("stored value is not scalar")
 			}
 			l := e.Loops[0]
+			posT := l.K
 			if !eqInt(e.Idx, l.K) {
-				return nil, e4fail("store position is not the loop index")
+				// a loop that walks down visits the same positions; whether that order is acceptable is C05's question
+				rev := mkBin(token.SUB, mkBin(token.SUB, l.Trip, mkInt(1, intT), intT), l.K, intT)
+				if !eqInt(e.Idx, rev) {
+					return nil, e4fail("store position is not the loop index")
+				}
+				posT = rev
 			}
 			// the kernel must be applied to every position of the common prefix (C05-R1), otherwise
 			// some samples are not converted at all
@@ -649,7 +662,7 @@ func (c *Checker) extractKernel(fn *ssa.Function, srcDepth, dstDepth int64) (*ke
 				return nil, e4refute("the conversion loop does not cover the common prefix min(len(src), len(dst)): it runs over %s positions", pretty(canon(l.Trip)))
 			}
 			for _, ld := range elemLoads(v) {
-				if !k.sample(ld) || !eqInt(ld.Args[0], l.K) {
+				if !k.sample(ld) || !eqInt(ld.Args[0], posT) {
 					return nil, e4fail("kernel reads %s, not source sample i", pretty(ld))
 				}
 			}
@@ -679,6 +692,9 @@ func expandIte(kp kernelPiece, depth int) []kernelPiece {
 	kp.val.walk(func(x *Term) bool {
 		if ite != nil {
 			return false
+		}
+		if x.Op == OpElem {
+			return false // a conditional inside the position of a load is not a case split of the kernel
 		}
 		if x.Op == OpIte {
 			ite = x
